@@ -152,6 +152,9 @@ def gen_expr(rng, rec):
         elif k == 'link':
             t = f['target']
             usable = not isinstance(t, str) and t['usable']
+            # (while the class does not exist / is not a dataclass yet: None.  A bare instance `L()` of a class that is not a dataclass
+            # yet is dumped through the default hook, which the dumper then keeps for the type after it has become a dataclass:
+            # recorded, findings/default-dump-hook-kept-for-class-decorated-later.py, and kept out of this stream)
             one = (lambda: gen_expr(rng, t)) if usable else (lambda: 'None')
             v = ('[' + ', '.join(one() for _ in range(rng.randint(0, 2))) + ']' if f['form'] == 'list' else
                  '{' + ', '.join(f'{kk!r}: {one()}' for kk in rng.sample(['k', 'j'], rng.randint(0, 2))) + '}' if f['form'] == 'dict' else one())
@@ -212,9 +215,7 @@ def fam_first_use_fails(rng):
     usable = [r for r in recs if r['name'] in alone]
     for k in range(rng.choice([1, 1, 2])):
         r = main if k == 0 and rng.random() < 0.7 else rng.choice(usable)
-        # (a dump made while the nested class is not a dataclass yet succeeds - it writes the object as a string - and is a use of
-        # another kind than the one this family is about: the attempts of that cause are loads)
-        ops.append(_use(rng, r, p_load=1.0 if cause == 'decorate-later' else 0.7))
+        ops.append(_use(rng, r, p_load=0.7))
     if cause == 'decorate-later':
         ops.append({'op': 'src', 'src': f'dataclass({late})\n', 'defines': [late], 'requires': [m], 'into': m})
         leaf['usable'] = True
